@@ -70,3 +70,10 @@ CHECKS.update({
          "text": "identity <=> value equality for Int (unbounded), BV (widths 1-4/6, all spellings), rationals (box), strings; payload-carrying operators in both construction orders; every grammar formula through blueprint/constructor routes; normalize from two source environments",
          "note": "SymKeyDict models Python's dict for value-keyed tables (assumes equal keys hash equal, checked for PySMTType); float spellings on a concrete set only"},
 })
+
+CHECKS.update({
+ "C15": {"level": "fault_enumeration", "engine": "XH+TV",
+         "technique": "CrossHair with the crash point of a traversal as a symbolic variable (fault injected at the k-th walker callback) + naturally failing calls; probe sequence vs an untouched twin environment",
+         "text": "every callback index of 8 long-lived walkers explored (Confirmed over all paths), 12 naturally failing API calls and 5 failing scripts on a re-used parser; 16 probe calls compared structurally with a twin",
+         "note": "faults are injected from outside by wrapping walker.functions; failures inside CPython built-ins are out of reach"},
+})
